@@ -103,3 +103,11 @@ Definition c12_spec_ok (c : ucase) (o : outcome recv_out) : bool :=
     | _ => true
     end
   end.
+
+(* C12, the other direction: the joint (axis, offset), the engine and the hydraulic bank are identified by the
+   sender's address, so a frame that does not come from the unit's address yields no measurement from this unit *)
+Definition c12_foreign_ok (c : ucase) (o : outcome recv_out) : bool :=
+  match o with
+  | Panic => false
+  | Ok r => implb (negb (id_sa (f_id (uc_frame c)) =? u_da (uc_u c))) (match r_sigs r with [] => true | _ => false end)
+  end.
